@@ -210,6 +210,7 @@ def _c06(prop, tier, seed, t0):
             for (_i, _k, tags) in covers:
                 for tg in tags:
                     res.cover[tg] += 1
+                    res.cover_runs[tg].add((_i, _k))
             res.runs += len(begins)
             for (_i, _k, prof) in begins:
                 res.profiles[prof] += 1
@@ -259,6 +260,7 @@ def _c16(prop, tier, seed, t0):
             for (_i, _k, tags) in covers:
                 for tg in tags:
                     res.cover[tg] += 1
+                    res.cover_runs[tg].add((_i, _k))
             if mod == "Trace_Snapshot.tla":
                 res.runs += len(begins)
             res.states += st["distinct"]
@@ -361,6 +363,7 @@ def _c17(prop, tier, seed, t0):
             for (_i, _k, tags) in covers:
                 for tg in tags:
                     res.cover[tg] += 1
+                    res.cover_runs[tg].add((_i, _k))
             res.runs += len(begins)
             for (_i, _k, prof) in begins:
                 res.profiles[prof] += 1
@@ -512,6 +515,7 @@ def explore_schedules(prop, tier, seed, wd, n, max_sched):
             for (_i, _k, tags) in covers:
                 for tg in tags:
                     res.cover[tg] += 1
+                    res.cover_runs[tg].add((_i, _k))
             res.runs += len(begins)
             res.states += st["distinct"]
             res.transitions += st["states"]
@@ -533,7 +537,7 @@ def _c10(prop, tier, seed, t0):
     fails = [f for f in vlib.first_fail_per_run(xres.fails) if check.owned_by(prop, f["rule"])]
     ev["coverage"]["traces_validated_against_impl"] += xres.runs
     ev["coverage"]["evaluations"] += xres.runs
-    ev["coverage"]["distinct_nontrivial"] += xres.cover.get("quiescent2", 0)
+    ev["coverage"]["distinct_nontrivial"] += len(xres.cover_runs.get("quiescent2", set()))
     ev["coverage"]["states"] += xres.states
     ev["coverage"]["transitions"] += xres.transitions
     ev["wall_s"] = round(time.time() - t0, 1)
@@ -724,7 +728,7 @@ def _c10(prop, tier, seed, t0):
     c = ev["coverage"]
     c["traces_validated_against_impl"] += xres.runs
     c["evaluations"] += xres.runs
-    c["distinct_nontrivial"] += xres.cover.get("quiescent2", 0)
+    c["distinct_nontrivial"] += len(xres.cover_runs.get("quiescent2", set()))
     c["states"] += xres.states + astates + mc_info.get("asyncfetch_states", 0)
     c["transitions"] += xres.transitions + atrans + mc_info.get("asyncfetch_transitions", 0)
     c.update(deep_info)
